@@ -36,6 +36,8 @@ AShareVec == On("ShareVec") /\ DeadObjs(S) # {} /\ \E s \in S.usertup :
 ADropTuple == On("ShareVec") /\ \E s \in S.usertup : Do(DropTuple(S, s), Act("DropTuple", 0, s, 0, 0, <<>>, NoName, ""))
 ACopy == On("Copy") /\ DeadObjs(S) # {} /\ \E o \in LiveVec(S), s \in One :
              Do(CopyVec(S, o, s), Act("Copy", o, s, 0, 0, <<>>, NoName, ""))
+ARawCopy == On("RawCopy") /\ DeadObjs(S) # {} /\ \E o \in LiveVec(S) :
+             Do(RawCopy(S, o), Act("RawCopy", o, 0, 0, 0, <<>>, NoName, ""))
 ADrop == On("Drop") /\ \E o \in LiveVec(S) : S.held[o] /\ Do(Drop(S, o), Act("Drop", o, 0, 0, 0, <<>>, NoName, ""))
 AWrite == On("Write") /\ \E o \in LiveVec(S) : \E i \in 1..Len(Contents(S, o)), x \in Vals \cup (IF On("Promote") THEN {NoneV, FloatV} ELSE {}), s \in One :
              Do(WriteVec(S, o, i, x, s), Act("Write", o, s, i, x, <<>>, NoName, ""))
@@ -75,7 +77,7 @@ AObserveV == On("Observe") /\ \E o \in LiveVec(S), f \in ObsV : Do(Observe(S, o,
 AObserveT == On("Observe") /\ \E t \in LiveTab(S), g \in ObsT : Do(Observe(S, t, g), Act("Observe", t, 0, 0, 0, <<>>, g, ""))
 ADir == On("Dir") /\ \E t \in LiveTab(S) : Do(Dir(S, t), Act("Dir", t, 0, 0, 0, <<>>, NoName, ""))
 
-Next == AWriteNone \/ AWriteByName \/ ADir \/ AConcatEmpty \/ AWriteRow \/ AObserveV \/ AObserveT \/ ANewVec \/ AShareVec \/ ADropTuple \/ ACopy \/ ADrop \/ AWrite \/ AReadFpV \/ ANewTable
+Next == ARawCopy \/ AWriteNone \/ AWriteByName \/ ADir \/ AConcatEmpty \/ AWriteRow \/ AObserveV \/ AObserveT \/ ANewVec \/ AShareVec \/ ADropTuple \/ ACopy \/ ADrop \/ AWrite \/ AReadFpV \/ ANewTable
         \/ ASetAttr \/ AColView \/ ADropTable \/ AReadFpT \/ ARename \/ ARenameColumn \/ ALookup
 Spec == Init /\ [][Next]_vars
 Bound == Len(path) < MaxDepth
@@ -113,7 +115,7 @@ WritesLocal == [][ last'.a \in {"Write", "SetAttr"} =>
                     LET tgt == IF last'.a = "Write" THEN Entity(st, last'.x) ELSE Entity(st, last'.x) IN
                     \A x \in (st.live \cap st'.live) \ tgt : ViewOf(st', x) = ViewOf(st, x) ]_vars
 (* read-only / constructing calls never change an existing object's view *)
-PureOps == [][ last'.a \in {"Observe", "WriteNone", "NewVec", "ShareVec", "Copy", "ConcatEmpty", "ReadFpV", "ReadFpT", "NewTable", "ColView", "Lookup", "Drop", "DropTuple", "DropTable"} =>
+PureOps == [][ last'.a \in {"Observe", "WriteNone", "RawCopy", "NewVec", "ShareVec", "Copy", "ConcatEmpty", "ReadFpV", "ReadFpT", "NewTable", "ColView", "Lookup", "Drop", "DropTuple", "DropTable"} =>
                     \A x \in st.live \cap st'.live : ViewOf(st', x) = ViewOf(st, x) ]_vars
 (* a refused or failed call changes nothing at all (C01, C08) *)
 FailedChangesNothing == [][ last'.res \in {"Refused", "Err"} => st' = st ]_vars
@@ -128,7 +130,7 @@ WritesLocalStep ==
     last'.a \in {"Write", "SetAttr", "WriteRow"} =>
         \A x \in (st.live \cap st'.live) \ Entity(st, last'.x) : ViewOf(st', x) = ViewOf(st, x)
 PureOpsStep ==
-    last'.a \in {"Observe", "WriteNone", "NewVec", "ShareVec", "Copy", "ConcatEmpty", "ReadFpV", "ReadFpT", "NewTable", "ColView", "Lookup", "Dir", "Drop", "DropTuple", "DropTable"} =>
+    last'.a \in {"Observe", "WriteNone", "RawCopy", "NewVec", "ShareVec", "Copy", "ConcatEmpty", "ReadFpV", "ReadFpT", "NewTable", "ColView", "Lookup", "Dir", "Drop", "DropTuple", "DropTable"} =>
         \A x \in st.live \cap st'.live : ViewOf(st', x) = ViewOf(st, x)
 FailedStep == last'.res \in {"Refused", "Err"} => st' = st
 WriteChangesFpStep ==
